@@ -621,7 +621,16 @@ class Ovld:
         """Unregister a function."""
         self._attempt_modify()
         built = self._invalidate()
-        self._defns = {sig: f for sig, f in self._defns.items() if f is not fn}
+        remaining = {sig: f for sig, f in self._defns.items() if f is not fn}
+        # Handlers that share a signature keep their relative order, the most
+        # recent one back at tiebreak 0, as if fn had never been registered:
+        # it must keep replacing an inherited handler for that signature
+        counts, renumbered = {}, {}
+        for sig in sorted(remaining, key=lambda sig: -sig.tiebreak):
+            base = replace(sig, tiebreak=0)
+            renumbered[sig] = replace(sig, tiebreak=-counts.get(base, 0))
+            counts[base] = counts.get(base, 0) + 1
+        self._defns = {renumbered[sig]: f for sig, f in remaining.items()}
         self._update(built)
 
     def _update(self, built=()):
